@@ -371,6 +371,10 @@ Lemma good_T_lastkw A c : good (fun s' => @T A c (last_kw_ok s') s').
 Proof. split; intros; [reflexivity | apply ext_refl]. Qed.
 #[export] Hint Resolve good_T_lastkw : good.
 
+Lemma good_X_trapped_addr A k : good (fun s' => @X A k (set_trapped_addr s' (prev_pc s'))).
+Proof. split; [intros s h r; destruct s; reflexivity | intros s; destruct s; apply ext_refl]. Qed.
+#[export] Hint Resolve good_X_trapped_addr : good.
+
 (* every instruction except halt commutes with overwriting halted/reason *)
 Lemma good_exec m i : i <> IHalt -> good (exec m i).
 Proof.
